@@ -725,5 +725,5 @@ class Parser:
                 and func.return_type != ExpressionType.VALUE
             ):
                 raise JSONPathTypeError(
-                    f"result of {expr.name}() is not comparable", token
+                    f"result of {expr.name}() is not comparable", token=token
                 )
